@@ -1,12 +1,978 @@
-//! Component `cat`: protocol runner (real code), case generator, implementation-level oracles.
-//! (stub; owned by the component's author)
+//! Component `cat`: integer (fixed-point) entropy models — protocol runner (real code), case
+//! generator, implementation-level oracles.  Lean twin: `lean/CV/Driver/Cat.lean`.
+//!
+//! ```text
+//! cat.contig   B P probs infer            | op | op …
+//! cat.ncdec    B P syms probs infer       | op …
+//! cat.ncenc    B P syms probs infer       | op …
+//! cat.lookup   B P probs infer            | op …
+//! cat.nclookup B P syms probs infer       | op …
+//! cat.uniform  B P range                  | op …
+//! cat.fast     kind B P n syms            (kind ∈ dec enc lookup; n weights 1.0; D13 glue)
+//! cat.valsweep B P n infer vals           (all tables of length n over `vals`, or `all`)
+//! cat.unisweep B P lo hi                  (all ranges in [lo, hi))
+//! cat.bsearch  arr q                      (`slice::binary_search_by` as the models call it)
+//! ```
+//! ops: `table support syms`, `enc s`, `has s`, `dec q`, `encs l`, `decs l`, `decsweep lo hi`,
+//! `encsweep lo hi`, conversions `view tolookup togenenc togendec togenlookup ascontig
+//! intocontig asnc intonc`.
 #![allow(unused)]
+use std::collections::BTreeMap;
+
+use constriction::stream::model::{
+    ContiguousCategoricalEntropyModel, ContiguousLookupDecoderModel, DecoderModel, EncoderModel,
+    IterableEntropyModel, NonContiguousCategoricalDecoderModel,
+    NonContiguousCategoricalEncoderModel, NonContiguousLookupDecoderModel, UniformModel,
+};
+use constriction::{BitArray, NonZeroBitArray};
+use num_traits::AsPrimitive;
+
 use crate::util::*;
 
-pub fn run(_segs: &[Vec<&str>]) -> String {
-    "bad-op".into()
+type Triple = (usize, u128, u128);
+
+/// A constructed model of any representation, behind the public traits only.
+pub trait DynModel {
+    /// `symbol_table().collect()`; `None` = not an `IterableEntropyModel`
+    fn table(&self) -> Option<Vec<Triple>> {
+        None
+    }
+    /// `left_cumulative_and_probability`; outer `None` = not an `EncoderModel`
+    fn enc(&self, _s: usize) -> Option<Option<(u128, u128)>> {
+        None
+    }
+    /// `quantile_function`; `None` = not a `DecoderModel`
+    fn dec(&self, _q: u128) -> Option<Triple> {
+        None
+    }
+    fn support(&self) -> Option<usize> {
+        None
+    }
+    fn conv(&self, _op: &str) -> Conv {
+        Conv::Na
+    }
+    fn kind(&self) -> &'static str;
 }
 
-pub fn gen(_rng: &mut Rng, _tier: &str, _out: &mut Vec<String>) {}
+pub enum Conv {
+    Na,
+    Unsupported,
+    Ok(Box<dyn DynModel>),
+}
 
-pub fn oracle(_rng: &mut Rng, _tier: &str, _rep: &mut Report) {}
+fn nz<Pr: BitArray>(p: Pr::NonZero) -> u128 {
+    to_u128(p.get())
+}
+
+fn triple<Pr: BitArray>(t: (usize, Pr, Pr::NonZero)) -> Triple {
+    (t.0, to_u128(t.1), nz::<Pr>(t.2))
+}
+
+fn table_of<'m, M, const P: usize>(m: &'m M) -> Vec<Triple>
+where
+    M: IterableEntropyModel<'m, P, Symbol = usize>,
+{
+    m.symbol_table().map(triple::<M::Probability>).collect()
+}
+
+fn enc_of<M, const P: usize>(m: &M, s: usize) -> Option<(u128, u128)>
+where
+    M: EncoderModel<P, Symbol = usize>,
+{
+    m.left_cumulative_and_probability(s)
+        .map(|(c, p)| (to_u128(c), nz::<M::Probability>(p)))
+}
+
+fn dec_of<M, const P: usize>(m: &M, q: u128) -> Triple
+where
+    M: DecoderModel<P, Symbol = usize>,
+{
+    triple::<M::Probability>(m.quantile_function(from_u128(q)))
+}
+
+/// Probability types; `u32` has no lookup models (`Probability: Into<usize>`).
+pub trait Prob: BitArray + AsPrimitive<usize> + 'static
+where
+    usize: AsPrimitive<Self>,
+{
+    fn contig_to_lookup<Cdf: AsRef<[Self]>, const P: usize>(
+        m: &ContiguousCategoricalEntropyModel<Self, Cdf, P>,
+    ) -> Conv;
+    fn ncdec_to_lookup<Cdf: AsRef<[(Self, usize)]>, const P: usize>(
+        m: &NonContiguousCategoricalDecoderModel<usize, Self, Cdf, P>,
+    ) -> Conv;
+    fn generic_lookup<'m, M, const P: usize>(m: &'m M) -> Conv
+    where
+        M: IterableEntropyModel<'m, P, Symbol = usize, Probability = Self>;
+    fn new_lookup<const P: usize>(probs: &[u128], infer: bool) -> Option<Result<Box<dyn DynModel>, ()>>;
+    fn new_nclookup<const P: usize>(
+        syms: &[usize],
+        probs: &[u128],
+        infer: bool,
+    ) -> Option<Result<Box<dyn DynModel>, ()>>;
+    fn fast_nclookup<const P: usize>(syms: &[usize], n: usize) -> Option<Result<Box<dyn DynModel>, ()>>;
+}
+
+// ---- wrappers -------------------------------------------------------------------------
+
+struct ContigW<Pr: BitArray, const P: usize> {
+    m: ContiguousCategoricalEntropyModel<Pr, Vec<Pr>, P>,
+    view: bool,
+}
+
+fn generic_conv<'m, M, Pr, const P: usize>(m: &'m M, op: &str) -> Conv
+where
+    Pr: Prob,
+    usize: AsPrimitive<Pr>,
+    M: IterableEntropyModel<'m, P, Symbol = usize, Probability = Pr>,
+{
+    match op {
+        "togenenc" => Conv::Ok(Box::new(NcEncW::<Pr, P> { m: m.to_generic_encoder_model() })),
+        "togendec" => Conv::Ok(Box::new(NcDecW::<Pr, P> { m: m.to_generic_decoder_model(), view: false })),
+        "togenlookup" => Pr::generic_lookup::<M, P>(m),
+        _ => Conv::Na,
+    }
+}
+
+fn contig_conv<Pr, Cdf, const P: usize>(m: &ContiguousCategoricalEntropyModel<Pr, Cdf, P>, op: &str) -> Conv
+where
+    Pr: Prob,
+    usize: AsPrimitive<Pr>,
+    Cdf: AsRef<[Pr]>,
+{
+    match op {
+        "tolookup" => Pr::contig_to_lookup(m),
+        _ => generic_conv::<_, Pr, P>(m, op),
+    }
+}
+
+impl<Pr: Prob, const P: usize> DynModel for ContigW<Pr, P>
+where
+    usize: AsPrimitive<Pr>,
+{
+    fn table(&self) -> Option<Vec<Triple>> {
+        Some(if self.view { table_of::<_, P>(&self.m.as_view()) } else { table_of::<_, P>(&self.m) })
+    }
+    fn enc(&self, s: usize) -> Option<Option<(u128, u128)>> {
+        Some(if self.view { enc_of::<_, P>(&self.m.as_view(), s) } else { enc_of::<_, P>(&self.m, s) })
+    }
+    fn dec(&self, q: u128) -> Option<Triple> {
+        Some(if self.view { dec_of::<_, P>(&self.m.as_view(), q) } else { dec_of::<_, P>(&self.m, q) })
+    }
+    fn support(&self) -> Option<usize> {
+        Some(if self.view { self.m.as_view().support_size() } else { self.m.support_size() })
+    }
+    fn conv(&self, op: &str) -> Conv {
+        match op {
+            "view" => Conv::Ok(Box::new(ContigW::<Pr, P> { m: self.m.clone(), view: true })),
+            _ => {
+                if self.view {
+                    contig_conv(&self.m.as_view(), op)
+                } else {
+                    contig_conv(&self.m, op)
+                }
+            }
+        }
+    }
+    fn kind(&self) -> &'static str {
+        "contig"
+    }
+}
+
+struct NcDecW<Pr: BitArray, const P: usize> {
+    m: NonContiguousCategoricalDecoderModel<usize, Pr, Vec<(Pr, usize)>, P>,
+    view: bool,
+}
+
+fn ncdec_conv<Pr, Cdf, const P: usize>(
+    m: &NonContiguousCategoricalDecoderModel<usize, Pr, Cdf, P>,
+    op: &str,
+) -> Conv
+where
+    Pr: Prob,
+    usize: AsPrimitive<Pr>,
+    Cdf: AsRef<[(Pr, usize)]>,
+{
+    match op {
+        "tolookup" => Pr::ncdec_to_lookup(m),
+        _ => generic_conv::<_, Pr, P>(m, op),
+    }
+}
+
+impl<Pr: Prob, const P: usize> DynModel for NcDecW<Pr, P>
+where
+    usize: AsPrimitive<Pr>,
+{
+    fn table(&self) -> Option<Vec<Triple>> {
+        Some(if self.view { table_of::<_, P>(&self.m.as_view()) } else { table_of::<_, P>(&self.m) })
+    }
+    fn dec(&self, q: u128) -> Option<Triple> {
+        Some(if self.view { dec_of::<_, P>(&self.m.as_view(), q) } else { dec_of::<_, P>(&self.m, q) })
+    }
+    fn support(&self) -> Option<usize> {
+        Some(if self.view { self.m.as_view().support_size() } else { self.m.support_size() })
+    }
+    fn conv(&self, op: &str) -> Conv {
+        match op {
+            "view" => Conv::Ok(Box::new(NcDecW::<Pr, P> { m: self.m.clone(), view: true })),
+            _ => {
+                if self.view {
+                    ncdec_conv(&self.m.as_view(), op)
+                } else {
+                    ncdec_conv(&self.m, op)
+                }
+            }
+        }
+    }
+    fn kind(&self) -> &'static str {
+        "ncdec"
+    }
+}
+
+struct NcEncW<Pr: BitArray, const P: usize> {
+    m: NonContiguousCategoricalEncoderModel<usize, Pr, P>,
+}
+
+impl<Pr: Prob, const P: usize> DynModel for NcEncW<Pr, P>
+where
+    usize: AsPrimitive<Pr>,
+{
+    fn enc(&self, s: usize) -> Option<Option<(u128, u128)>> {
+        Some(enc_of::<_, P>(&self.m, s))
+    }
+    fn support(&self) -> Option<usize> {
+        Some(self.m.support_size())
+    }
+    fn kind(&self) -> &'static str {
+        "ncenc"
+    }
+}
+
+struct UniformW<Pr: BitArray, const P: usize> {
+    m: UniformModel<Pr, P>,
+}
+
+impl<Pr: Prob, const P: usize> DynModel for UniformW<Pr, P>
+where
+    usize: AsPrimitive<Pr>,
+{
+    fn table(&self) -> Option<Vec<Triple>> {
+        Some(table_of::<_, P>(&self.m))
+    }
+    fn enc(&self, s: usize) -> Option<Option<(u128, u128)>> {
+        Some(enc_of::<_, P>(&self.m, s))
+    }
+    fn dec(&self, q: u128) -> Option<Triple> {
+        Some(dec_of::<_, P>(&self.m, q))
+    }
+    fn conv(&self, op: &str) -> Conv {
+        generic_conv::<_, Pr, P>(&self.m, op)
+    }
+    fn kind(&self) -> &'static str {
+        "uniform"
+    }
+}
+
+/// lookup wrappers exist only for `Pr: Into<usize>`
+struct LookupW<Pr: BitArray, const P: usize> {
+    m: ContiguousLookupDecoderModel<Pr, Vec<Pr>, Box<[Pr]>, P>,
+    view: bool,
+}
+
+/// queries go through `as_contiguous_categorical()` on every call
+struct LookupAsContigW<Pr: BitArray, const P: usize> {
+    m: ContiguousLookupDecoderModel<Pr, Vec<Pr>, Box<[Pr]>, P>,
+}
+
+struct NcLookupW<Pr: BitArray, const P: usize> {
+    m: NonContiguousLookupDecoderModel<usize, Pr, Vec<(Pr, usize)>, Box<[Pr]>, P>,
+    view: bool,
+}
+
+struct NcLookupAsNcW<Pr: BitArray, const P: usize> {
+    m: NonContiguousLookupDecoderModel<usize, Pr, Vec<(Pr, usize)>, Box<[Pr]>, P>,
+}
+
+macro_rules! impl_lookup_wrappers {
+    ($Pr:ty) => {
+        impl<const P: usize> DynModel for LookupW<$Pr, P> {
+            fn table(&self) -> Option<Vec<Triple>> {
+                Some(if self.view { table_of::<_, P>(&self.m.as_view()) } else { table_of::<_, P>(&self.m) })
+            }
+            fn dec(&self, q: u128) -> Option<Triple> {
+                Some(if self.view { dec_of::<_, P>(&self.m.as_view(), q) } else { dec_of::<_, P>(&self.m, q) })
+            }
+            fn conv(&self, op: &str) -> Conv {
+                match op {
+                    "view" => Conv::Ok(Box::new(LookupW::<$Pr, P> { m: self.m.clone(), view: true })),
+                    "ascontig" => Conv::Ok(Box::new(LookupAsContigW::<$Pr, P> { m: self.m.clone() })),
+                    "intocontig" => Conv::Ok(Box::new(ContigW::<$Pr, P> {
+                        m: self.m.clone().into_contiguous_categorical(),
+                        view: false,
+                    })),
+                    _ => {
+                        if self.view {
+                            generic_conv::<_, $Pr, P>(&self.m.as_view(), op)
+                        } else {
+                            generic_conv::<_, $Pr, P>(&self.m, op)
+                        }
+                    }
+                }
+            }
+            fn kind(&self) -> &'static str {
+                "lookup"
+            }
+        }
+
+        impl<const P: usize> DynModel for LookupAsContigW<$Pr, P> {
+            fn table(&self) -> Option<Vec<Triple>> {
+                Some(table_of::<_, P>(&self.m.as_contiguous_categorical()))
+            }
+            fn enc(&self, s: usize) -> Option<Option<(u128, u128)>> {
+                Some(enc_of::<_, P>(&self.m.as_contiguous_categorical(), s))
+            }
+            fn dec(&self, q: u128) -> Option<Triple> {
+                Some(dec_of::<_, P>(&self.m.as_contiguous_categorical(), q))
+            }
+            fn support(&self) -> Option<usize> {
+                Some(self.m.as_contiguous_categorical().support_size())
+            }
+            fn conv(&self, op: &str) -> Conv {
+                match op {
+                    "view" => Conv::Ok(Box::new(LookupAsContigW::<$Pr, P> { m: self.m.clone() })),
+                    _ => contig_conv(&self.m.as_contiguous_categorical(), op),
+                }
+            }
+            fn kind(&self) -> &'static str {
+                "contig"
+            }
+        }
+
+        impl<const P: usize> DynModel for NcLookupW<$Pr, P> {
+            fn table(&self) -> Option<Vec<Triple>> {
+                Some(if self.view { table_of::<_, P>(&self.m.as_view()) } else { table_of::<_, P>(&self.m) })
+            }
+            fn dec(&self, q: u128) -> Option<Triple> {
+                Some(if self.view { dec_of::<_, P>(&self.m.as_view(), q) } else { dec_of::<_, P>(&self.m, q) })
+            }
+            fn conv(&self, op: &str) -> Conv {
+                match op {
+                    "view" => Conv::Ok(Box::new(NcLookupW::<$Pr, P> { m: self.m.clone(), view: true })),
+                    "asnc" => Conv::Ok(Box::new(NcLookupAsNcW::<$Pr, P> { m: self.m.clone() })),
+                    "intonc" => Conv::Ok(Box::new(NcDecW::<$Pr, P> {
+                        m: self.m.clone().into_non_contiguous_categorical(),
+                        view: false,
+                    })),
+                    _ => {
+                        if self.view {
+                            generic_conv::<_, $Pr, P>(&self.m.as_view(), op)
+                        } else {
+                            generic_conv::<_, $Pr, P>(&self.m, op)
+                        }
+                    }
+                }
+            }
+            fn kind(&self) -> &'static str {
+                "nclookup"
+            }
+        }
+
+        impl<const P: usize> DynModel for NcLookupAsNcW<$Pr, P> {
+            fn table(&self) -> Option<Vec<Triple>> {
+                Some(table_of::<_, P>(&self.m.as_non_contiguous_categorical()))
+            }
+            fn dec(&self, q: u128) -> Option<Triple> {
+                Some(dec_of::<_, P>(&self.m.as_non_contiguous_categorical(), q))
+            }
+            fn support(&self) -> Option<usize> {
+                Some(self.m.as_non_contiguous_categorical().support_size())
+            }
+            fn conv(&self, op: &str) -> Conv {
+                match op {
+                    "view" => Conv::Ok(Box::new(NcLookupAsNcW::<$Pr, P> { m: self.m.clone() })),
+                    _ => ncdec_conv(&self.m.as_non_contiguous_categorical(), op),
+                }
+            }
+            fn kind(&self) -> &'static str {
+                "ncdec"
+            }
+        }
+
+        impl Prob for $Pr {
+            fn contig_to_lookup<Cdf: AsRef<[Self]>, const P: usize>(
+                m: &ContiguousCategoricalEntropyModel<Self, Cdf, P>,
+            ) -> Conv {
+                Conv::Ok(Box::new(LookupW::<$Pr, P> { m: m.to_lookup_decoder_model(), view: false }))
+            }
+            fn ncdec_to_lookup<Cdf: AsRef<[(Self, usize)]>, const P: usize>(
+                m: &NonContiguousCategoricalDecoderModel<usize, Self, Cdf, P>,
+            ) -> Conv {
+                Conv::Ok(Box::new(NcLookupW::<$Pr, P> { m: m.to_lookup_decoder_model(), view: false }))
+            }
+            fn generic_lookup<'m, M, const P: usize>(m: &'m M) -> Conv
+            where
+                M: IterableEntropyModel<'m, P, Symbol = usize, Probability = Self>,
+            {
+                Conv::Ok(Box::new(NcLookupW::<$Pr, P> { m: m.to_generic_lookup_decoder_model(), view: false }))
+            }
+            fn new_lookup<const P: usize>(probs: &[u128], infer: bool) -> Option<Result<Box<dyn DynModel>, ()>> {
+                let probs: Vec<$Pr> = probs.iter().map(|&p| from_u128(p)).collect();
+                Some(
+                    ContiguousLookupDecoderModel::<$Pr, Vec<$Pr>, Box<[$Pr]>, P>::from_nonzero_fixed_point_probabilities(
+                        probs.iter(),
+                        infer,
+                    )
+                    .map(|m| Box::new(LookupW::<$Pr, P> { m, view: false }) as Box<dyn DynModel>),
+                )
+            }
+            fn new_nclookup<const P: usize>(
+                syms: &[usize],
+                probs: &[u128],
+                infer: bool,
+            ) -> Option<Result<Box<dyn DynModel>, ()>> {
+                let probs: Vec<$Pr> = probs.iter().map(|&p| from_u128(p)).collect();
+                Some(
+                    NonContiguousLookupDecoderModel::<usize, $Pr, Vec<($Pr, usize)>, Box<[$Pr]>, P>::from_symbols_and_nonzero_fixed_point_probabilities(
+                        syms.iter().copied(),
+                        probs.iter(),
+                        infer,
+                    )
+                    .map(|m| Box::new(NcLookupW::<$Pr, P> { m, view: false }) as Box<dyn DynModel>),
+                )
+            }
+            fn fast_nclookup<const P: usize>(syms: &[usize], n: usize) -> Option<Result<Box<dyn DynModel>, ()>> {
+                let w = vec![1.0f64; n];
+                Some(
+                    NonContiguousLookupDecoderModel::<usize, $Pr, Vec<($Pr, usize)>, Box<[$Pr]>, P>::from_symbols_and_floating_point_probabilities_fast(
+                        syms.iter().copied(),
+                        &w,
+                        None,
+                    )
+                    .map(|m| Box::new(NcLookupW::<$Pr, P> { m, view: false }) as Box<dyn DynModel>),
+                )
+            }
+        }
+    };
+}
+impl_lookup_wrappers!(u8);
+impl_lookup_wrappers!(u16);
+
+impl Prob for u32 {
+    fn contig_to_lookup<Cdf: AsRef<[Self]>, const P: usize>(
+        _m: &ContiguousCategoricalEntropyModel<Self, Cdf, P>,
+    ) -> Conv {
+        Conv::Unsupported
+    }
+    fn ncdec_to_lookup<Cdf: AsRef<[(Self, usize)]>, const P: usize>(
+        _m: &NonContiguousCategoricalDecoderModel<usize, Self, Cdf, P>,
+    ) -> Conv {
+        Conv::Unsupported
+    }
+    fn generic_lookup<'m, M, const P: usize>(_m: &'m M) -> Conv
+    where
+        M: IterableEntropyModel<'m, P, Symbol = usize, Probability = Self>,
+    {
+        Conv::Unsupported
+    }
+    fn new_lookup<const P: usize>(_probs: &[u128], _infer: bool) -> Option<Result<Box<dyn DynModel>, ()>> {
+        None
+    }
+    fn new_nclookup<const P: usize>(
+        _syms: &[usize],
+        _probs: &[u128],
+        _infer: bool,
+    ) -> Option<Result<Box<dyn DynModel>, ()>> {
+        None
+    }
+    fn fast_nclookup<const P: usize>(_syms: &[usize], _n: usize) -> Option<Result<Box<dyn DynModel>, ()>> {
+        None
+    }
+}
+
+// ---- constructors ---------------------------------------------------------------------
+
+/// what a constructor segment asks for
+#[derive(Clone, Debug)]
+pub enum Ctor {
+    Contig { probs: Vec<u128>, infer: bool },
+    NcDec { syms: Vec<usize>, probs: Vec<u128>, infer: bool },
+    NcEnc { syms: Vec<usize>, probs: Vec<u128>, infer: bool },
+    Lookup { probs: Vec<u128>, infer: bool },
+    NcLookup { syms: Vec<usize>, probs: Vec<u128>, infer: bool },
+    Uniform { range: usize },
+    Fast { kind: String, n: usize, syms: Vec<usize> },
+}
+
+pub enum Built {
+    Ok(Box<dyn DynModel>),
+    Rejected,
+    Unsupported,
+}
+
+fn wrap<T: DynModel + 'static>(r: Result<T, ()>) -> Built {
+    match r {
+        Ok(m) => Built::Ok(Box::new(m)),
+        Err(()) => Built::Rejected,
+    }
+}
+
+fn opt_built(r: Option<Result<Box<dyn DynModel>, ()>>) -> Built {
+    match r {
+        None => Built::Unsupported,
+        Some(Ok(m)) => Built::Ok(m),
+        Some(Err(())) => Built::Rejected,
+    }
+}
+
+fn build_impl<Pr: Prob, const P: usize>(c: &Ctor) -> Built
+where
+    usize: AsPrimitive<Pr>,
+{
+    let conv = |ps: &Vec<u128>| -> Vec<Pr> { ps.iter().map(|&p| from_u128(p)).collect() };
+    match c {
+        Ctor::Contig { probs, infer } => {
+            let ps = conv(probs);
+            wrap(
+                ContiguousCategoricalEntropyModel::<Pr, Vec<Pr>, P>::from_nonzero_fixed_point_probabilities(ps.iter(), *infer)
+                    .map(|m| ContigW::<Pr, P> { m, view: false }),
+            )
+        }
+        Ctor::NcDec { syms, probs, infer } => {
+            let ps = conv(probs);
+            wrap(
+                NonContiguousCategoricalDecoderModel::<usize, Pr, Vec<(Pr, usize)>, P>::from_symbols_and_nonzero_fixed_point_probabilities(
+                    syms.iter().copied(),
+                    ps.iter(),
+                    *infer,
+                )
+                .map(|m| NcDecW::<Pr, P> { m, view: false }),
+            )
+        }
+        Ctor::NcEnc { syms, probs, infer } => {
+            let ps = conv(probs);
+            wrap(
+                NonContiguousCategoricalEncoderModel::<usize, Pr, P>::from_symbols_and_nonzero_fixed_point_probabilities(
+                    syms.iter().copied(),
+                    ps.iter(),
+                    *infer,
+                )
+                .map(|m| NcEncW::<Pr, P> { m }),
+            )
+        }
+        Ctor::Lookup { probs, infer } => opt_built(Pr::new_lookup::<P>(probs, *infer)),
+        Ctor::NcLookup { syms, probs, infer } => opt_built(Pr::new_nclookup::<P>(syms, probs, *infer)),
+        Ctor::Uniform { range } => Built::Ok(Box::new(UniformW::<Pr, P> { m: UniformModel::<Pr, P>::new(*range) })),
+        Ctor::Fast { kind, n, syms } => {
+            let w = vec![1.0f64; *n];
+            match kind.as_str() {
+                "dec" => wrap(
+                    NonContiguousCategoricalDecoderModel::<usize, Pr, Vec<(Pr, usize)>, P>::from_symbols_and_floating_point_probabilities_fast(
+                        syms.iter().copied(),
+                        &w,
+                        None,
+                    )
+                    .map(|m| NcDecW::<Pr, P> { m, view: false }),
+                ),
+                "enc" => wrap(
+                    NonContiguousCategoricalEncoderModel::<usize, Pr, P>::from_symbols_and_floating_point_probabilities_fast(
+                        syms.iter().copied(),
+                        &w,
+                        None,
+                    )
+                    .map(|m| NcEncW::<Pr, P> { m }),
+                ),
+                _ => opt_built(Pr::fast_nclookup::<P>(syms, *n)),
+            }
+        }
+    }
+}
+
+/// `(Probability::BITS, PRECISION)` pairs compiled into the harness
+pub const BPS: &[(u32, &[u32])] = &[
+    (8, &[1, 2, 3, 4, 7, 8]),
+    (16, &[1, 2, 3, 4, 8, 12, 15, 16]),
+    (32, &[1, 2, 3, 4, 12, 16, 24, 31, 32]),
+];
+
+macro_rules! dispatch_bp {
+    ($b:expr, $p:expr, $f:ident, $($arg:expr),*) => {
+        match ($b, $p) {
+            (8, 1) => Some($f::<u8, 1>($($arg),*)),
+            (8, 2) => Some($f::<u8, 2>($($arg),*)),
+            (8, 3) => Some($f::<u8, 3>($($arg),*)),
+            (8, 4) => Some($f::<u8, 4>($($arg),*)),
+            (8, 7) => Some($f::<u8, 7>($($arg),*)),
+            (8, 8) => Some($f::<u8, 8>($($arg),*)),
+            (16, 1) => Some($f::<u16, 1>($($arg),*)),
+            (16, 2) => Some($f::<u16, 2>($($arg),*)),
+            (16, 3) => Some($f::<u16, 3>($($arg),*)),
+            (16, 4) => Some($f::<u16, 4>($($arg),*)),
+            (16, 8) => Some($f::<u16, 8>($($arg),*)),
+            (16, 12) => Some($f::<u16, 12>($($arg),*)),
+            (16, 15) => Some($f::<u16, 15>($($arg),*)),
+            (16, 16) => Some($f::<u16, 16>($($arg),*)),
+            (32, 1) => Some($f::<u32, 1>($($arg),*)),
+            (32, 2) => Some($f::<u32, 2>($($arg),*)),
+            (32, 3) => Some($f::<u32, 3>($($arg),*)),
+            (32, 4) => Some($f::<u32, 4>($($arg),*)),
+            (32, 12) => Some($f::<u32, 12>($($arg),*)),
+            (32, 16) => Some($f::<u32, 16>($($arg),*)),
+            (32, 24) => Some($f::<u32, 24>($($arg),*)),
+            (32, 31) => Some($f::<u32, 31>($($arg),*)),
+            (32, 32) => Some($f::<u32, 32>($($arg),*)),
+            _ => None,
+        }
+    };
+}
+
+/// build a model with the real constructors; `None` = (B, P) not compiled in
+pub fn build(b: u32, p: u32, c: &Ctor) -> Option<Built> {
+    dispatch_bp!(b, p, build_impl, c)
+}
+
+// ---- protocol runner ------------------------------------------------------------------
+
+fn show_triple(t: &Triple) -> String {
+    format!("{:x}:{:x}:{:x}", t.0, t.1, t.2)
+}
+
+fn show_table(t: &[Triple]) -> String {
+    if t.is_empty() {
+        "-".into()
+    } else {
+        t.iter().map(show_triple).collect::<Vec<_>>().join(",")
+    }
+}
+
+fn parse_bool(s: &str) -> Option<bool> {
+    match s {
+        "1" => Some(true),
+        "0" => Some(false),
+        _ => None,
+    }
+}
+
+fn usizes(l: Vec<u128>) -> Vec<usize> {
+    l.into_iter().map(|x| x as usize).collect()
+}
+
+fn parse_ctor(seg: &[&str]) -> Option<(u32, u32, Ctor)> {
+    let b = parse_hex(seg.get(1)?)? as u32;
+    match seg {
+        ["cat.contig", _, p, probs, infer] => Some((
+            b,
+            parse_hex(p)? as u32,
+            Ctor::Contig { probs: parse_list(probs)?, infer: parse_bool(infer)? },
+        )),
+        ["cat.ncdec", _, p, syms, probs, infer] => Some((
+            b,
+            parse_hex(p)? as u32,
+            Ctor::NcDec { syms: usizes(parse_list(syms)?), probs: parse_list(probs)?, infer: parse_bool(infer)? },
+        )),
+        ["cat.ncenc", _, p, syms, probs, infer] => Some((
+            b,
+            parse_hex(p)? as u32,
+            Ctor::NcEnc { syms: usizes(parse_list(syms)?), probs: parse_list(probs)?, infer: parse_bool(infer)? },
+        )),
+        ["cat.lookup", _, p, probs, infer] => Some((
+            b,
+            parse_hex(p)? as u32,
+            Ctor::Lookup { probs: parse_list(probs)?, infer: parse_bool(infer)? },
+        )),
+        ["cat.nclookup", _, p, syms, probs, infer] => Some((
+            b,
+            parse_hex(p)? as u32,
+            Ctor::NcLookup { syms: usizes(parse_list(syms)?), probs: parse_list(probs)?, infer: parse_bool(infer)? },
+        )),
+        ["cat.uniform", _, p, range] => Some((b, parse_hex(p)? as u32, Ctor::Uniform { range: parse_hex(range)? as usize })),
+        _ => None,
+    }
+}
+
+fn parse_fast(seg: &[&str]) -> Option<(u32, u32, Ctor)> {
+    match seg {
+        ["cat.fast", kind, b, p, n, syms] => {
+            if !["dec", "enc", "lookup"].contains(kind) {
+                return None;
+            }
+            Some((
+                parse_hex(b)? as u32,
+                parse_hex(p)? as u32,
+                Ctor::Fast { kind: kind.to_string(), n: parse_hex(n)? as usize, syms: usizes(parse_list(syms)?) },
+            ))
+        }
+        _ => None,
+    }
+}
+
+fn show_digest(count: u128, h: u64) -> String {
+    format!("{:x} {:x}", count, h)
+}
+
+/// one op on the current model; `Err(class)` = panic (history stops)
+fn do_op(m: &mut Box<dyn DynModel>, seg: &[&str]) -> Result<Option<String>, &'static str> {
+    guarded(|| -> Option<String> {
+        Some(match seg {
+            ["table"] => match m.table() {
+                Some(t) => show_table(&t),
+                None => "n/a".into(),
+            },
+            ["syms"] => match m.table() {
+                Some(t) => show_list(t.iter().map(|t| t.0 as u128)),
+                None => "n/a".into(),
+            },
+            ["support"] => match m.support() {
+                Some(n) => hex(n as u128),
+                None => "n/a".into(),
+            },
+            ["enc", s] => match m.enc(parse_hex(s)? as usize) {
+                None => "n/a".into(),
+                Some(None) => "none".into(),
+                Some(Some((c, p))) => format!("{:x} {:x}", c, p),
+            },
+            ["has", s] => match m.enc(parse_hex(s)? as usize) {
+                None => "n/a".into(),
+                Some(r) => format!("{}", r.is_some()),
+            },
+            ["dec", q] => match m.dec(parse_hex(q)?) {
+                None => "n/a".into(),
+                Some(t) => format!("{:x} {:x} {:x}", t.0, t.1, t.2),
+            },
+            ["encs", l] => {
+                let l = parse_list(l)?;
+                let mut out = Vec::new();
+                for s in l {
+                    match m.enc(s as usize) {
+                        None => return Some("n/a".into()),
+                        Some(None) => out.push("x".to_string()),
+                        Some(Some((c, p))) => out.push(format!("{:x}:{:x}", c, p)),
+                    }
+                }
+                if out.is_empty() {
+                    "-".into()
+                } else {
+                    out.join(",")
+                }
+            }
+            ["decs", l] => {
+                let l = parse_list(l)?;
+                let mut out = Vec::new();
+                for q in l {
+                    match m.dec(q) {
+                        None => return Some("n/a".into()),
+                        Some(t) => out.push(show_triple(&t)),
+                    }
+                }
+                if out.is_empty() {
+                    "-".into()
+                } else {
+                    out.join(",")
+                }
+            }
+            ["decsweep", lo, hi] => {
+                let (lo, hi) = (parse_hex(lo)?, parse_hex(hi)?);
+                let mut h = DIGEST_INIT;
+                let mut q = lo;
+                while q < hi {
+                    match m.dec(q) {
+                        None => return Some("n/a".into()),
+                        Some(t) => {
+                            h = digest_step(digest_step(digest_step(h, t.0 as u128), t.1), t.2);
+                        }
+                    }
+                    q += 1;
+                }
+                show_digest(hi.saturating_sub(lo), h)
+            }
+            ["encsweep", lo, hi] => {
+                let (lo, hi) = (parse_hex(lo)?, parse_hex(hi)?);
+                let mut h = DIGEST_INIT;
+                let mut s = lo;
+                while s < hi {
+                    match m.enc(s as usize) {
+                        None => return Some("n/a".into()),
+                        Some(None) => h = digest_step(h, 0),
+                        Some(Some((c, p))) => h = digest_step(digest_step(digest_step(h, 1), c), p),
+                    }
+                    s += 1;
+                }
+                show_digest(hi.saturating_sub(lo), h)
+            }
+            [op] if ["view", "tolookup", "togenenc", "togendec", "togenlookup", "ascontig", "intocontig", "asnc", "intonc"].contains(op) => {
+                match m.conv(op) {
+                    Conv::Na => "n/a".into(),
+                    Conv::Unsupported => "unsupported".into(),
+                    Conv::Ok(n) => {
+                        *m = n;
+                        "ok".into()
+                    }
+                }
+            }
+            _ => return None,
+        })
+    })
+}
+
+fn run_hist(b: u32, p: u32, c: &Ctor, ops: &[Vec<&str>]) -> String {
+    let built = match guarded(|| build(b, p, c)) {
+        Err(class) => return class.into(),
+        Ok(None) => return "unsupported".into(),
+        Ok(Some(x)) => x,
+    };
+    let mut m = match built {
+        Built::Rejected => return "rejected".into(),
+        Built::Unsupported => return "unsupported".into(),
+        Built::Ok(m) => m,
+    };
+    let mut outs = vec!["ok".to_string()];
+    for seg in ops {
+        match do_op(&mut m, seg) {
+            Ok(Some(s)) => outs.push(s),
+            Ok(None) => {
+                outs.push("bad-op".into());
+                break;
+            }
+            Err(class) => {
+                outs.push(class.into());
+                break;
+            }
+        }
+    }
+    outs.join(" | ")
+}
+
+// ---- sweeps ---------------------------------------------------------------------------
+
+fn next_idx(k: usize, idx: &mut [usize]) -> bool {
+    for i in idx.iter_mut() {
+        if *i + 1 < k {
+            *i += 1;
+            return true;
+        }
+        *i = 0;
+    }
+    false
+}
+
+fn valsweep_impl<Pr: Prob, const P: usize>(n: usize, infer: bool, vals: &[u128]) -> String
+where
+    usize: AsPrimitive<Pr>,
+{
+    let vals: Vec<Pr> = vals.iter().map(|&v| from_u128(v)).collect();
+    let mut idx = vec![0usize; n];
+    let (mut count, mut acc, mut h) = (0u128, 0u128, DIGEST_INIT);
+    let mut probs: Vec<Pr> = vec![Pr::zero(); n];
+    loop {
+        for (p, &i) in probs.iter_mut().zip(idx.iter()) {
+            *p = vals[i];
+        }
+        match ContiguousCategoricalEntropyModel::<Pr, Vec<Pr>, P>::from_nonzero_fixed_point_probabilities(probs.iter(), infer) {
+            Err(()) => h = digest_step(h, 0),
+            Ok(m) => {
+                acc += 1;
+                h = digest_step(h, 1);
+                // the cdf is private; reconstruct it from the public symbol table:
+                // left cumulatives followed by `wrapping_pow2(P)`
+                for (_, c, _) in m.symbol_table() {
+                    h = digest_step(h, to_u128(c));
+                }
+                let total = if P as u32 >= Pr::BITS as u32 { 0 } else { 1u128 << P };
+                h = digest_step(h, total);
+            }
+        }
+        count += 1;
+        if !next_idx(vals.len(), &mut idx) {
+            break;
+        }
+    }
+    format!("{:x} {:x} {:x}", count, acc, h)
+}
+
+fn unisweep_impl<Pr: Prob, const P: usize>(lo: usize, hi: usize) -> String
+where
+    usize: AsPrimitive<Pr>,
+{
+    let mut h = DIGEST_INIT;
+    for range in lo..hi {
+        match guarded(|| UniformModel::<Pr, P>::new(range)) {
+            Err(_) => h = digest_step(h, 0),
+            Ok(u) => {
+                // ppb and last_symbol are private: observe them through the public API
+                let (_, _, ppb) = u.quantile_function(Pr::zero());
+                let last = u.symbol_table().last().map(|t| t.0).unwrap_or(0);
+                h = digest_step(digest_step(digest_step(h, 1), nz::<Pr>(ppb)), last as u128);
+                for s in 0..range + 2 {
+                    match guarded(|| enc_of::<_, P>(&u, s)) {
+                        Ok(Some((c, p))) => h = digest_step(digest_step(digest_step(h, 1), c), p),
+                        Ok(None) => h = digest_step(h, 0),
+                        Err(_) => h = digest_step(h, 2),
+                    }
+                }
+                if P <= 12 {
+                    for q in 0..(1u128 << P) {
+                        match guarded(|| dec_of::<_, P>(&u, q)) {
+                            Ok(t) => h = digest_step(digest_step(digest_step(h, t.0 as u128), t.1), t.2),
+                            Err(_) => h = digest_step(h, 2),
+                        }
+                    }
+                }
+            }
+        }
+    }
+    format!("{:x} {:x}", hi.saturating_sub(lo), h)
+}
+
+pub fn run(segs: &[Vec<&str>]) -> String {
+    let head = &segs[0];
+    match head.as_slice() {
+        ["cat.valsweep", b, p, n, infer, vals] if segs.len() == 1 => {
+            let f = || -> Option<String> {
+                let (b, p, n) = (parse_hex(b)? as u32, parse_hex(p)? as u32, parse_hex(n)? as usize);
+                let infer = parse_bool(infer)?;
+                let vals: Vec<u128> = if *vals == "all" { (0..pow2(b)).collect() } else { parse_list(vals)? };
+                if vals.is_empty() {
+                    return None;
+                }
+                Some(dispatch_bp!(b, p, valsweep_impl, n, infer, &vals).unwrap_or("unsupported".into()))
+            };
+            f().unwrap_or("bad-op".into())
+        }
+        ["cat.unisweep", b, p, lo, hi] if segs.len() == 1 => {
+            let f = || -> Option<String> {
+                let (b, p) = (parse_hex(b)? as u32, parse_hex(p)? as u32);
+                let (lo, hi) = (parse_hex(lo)? as usize, parse_hex(hi)? as usize);
+                Some(dispatch_bp!(b, p, unisweep_impl, lo, hi).unwrap_or("unsupported".into()))
+            };
+            f().unwrap_or("bad-op".into())
+        }
+        ["cat.bsearch", arr, q] if segs.len() == 1 => {
+            let f = || -> Option<String> {
+                let a = parse_list(arr)?;
+                let q = parse_hex(q)?;
+                // exactly the call the cdf-based models make
+                let r = a.binary_search_by(|&x| {
+                    if x <= q {
+                        core::cmp::Ordering::Less
+                    } else {
+                        core::cmp::Ordering::Greater
+                    }
+                });
+                Some(match r {
+                    Err(i) => hex(i as u128),
+                    Ok(_) => "ub:unreachable".into(),
+                })
+            };
+            f().unwrap_or("bad-op".into())
+        }
+        _ => {
+            let parsed = if head.first() == Some(&"cat.fast") { parse_fast(head) } else { parse_ctor(head) };
+            match parsed {
+                None => "bad-op".into(),
+                Some((b, p, c)) => run_hist(b, p, &c, &segs[1..]),
+            }
+        }
+    }
+}
+
+include!("cat_gen.rs");
+include!("cat_oracle.rs");
